@@ -326,7 +326,16 @@ pub fn load_synthetic(env: &Env, opts: &VoiceOpts, rng: &mut Rng) -> Result<(Eng
     let refv = read_voice(&bytes).map_err(|e| format!("reference reader: {}", e))?;
     voicegen::cross_check(&spec, &refv).map_err(|e| format!("generator/reader disagree: {}", e))?;
     let p = env.voice_file(&bytes);
-    let e = Engine::load(&[&p]);
+    // two public routes to an engine: Engine::load, or the voice loaded by hand into a VoiceSet
+    // with a default Condition that takes the voice's settings, then Engine::new
+    let e = if rng.chance(0.35) {
+        match jbonsai::model::load_htsvoice_file(&p) {
+            Ok(v) => crate::env::engine_from_voices(vec![std::sync::Arc::new(v)]),
+            Err(e) => Err(format!("{}", e)),
+        }
+    } else {
+        Engine::load(&[&p]).map_err(|e| format!("{}", e))
+    };
     env.remove(&p);
     match e {
         Ok(e) => Ok((e, refv)),
